@@ -115,9 +115,64 @@ def defaultMissing (a : Arg) : Bool := !a.mandatory && a.printDefault && a.defau
 /-- no blank in a key (`ArgumentKey` rejects them) -/
 def KeyClean (k : Key) : Prop := (∀ c, k.short = some c → c ≠ ' ') ∧ (∀ c ∈ k.long, c ≠ ' ')
 
+/-- no newline in a key: then every line of the model's text is a line of the written text
+    (`unlines` / `splitNl`) -/
+def KeyLine (k : Key) : Prop := (∀ c, k.short = some c → c ≠ '\n') ∧ (∀ c ∈ k.long, c ≠ '\n')
+
+/-! ### what the reader does not use -/
+
+/-- The lines of a usage text that `parseUsage` and `captions` do NOT use, in order: every line that is neither
+    a caption, nor an entry line, nor a continuation line standing directly below an entry line or below
+    another continuation line of that entry (`inEntry`: the line above belongs to an entry).  These are exactly
+    the lines `parseFrom` passes over without giving their words to an entry: its `.other` case, and its
+    `.cont` case where `contWords` of the entry above has stopped already (or there is no entry above). -/
+def ignoredFrom (inEntry : Bool) : List Str → List Str
+  | [] => []
+  | l :: ls =>
+    match classify l with
+    | .caption _ => ignoredFrom false ls
+    | .entry _ _ => ignoredFrom true ls
+    | .cont => if inEntry then ignoredFrom true ls else l :: ignoredFrom false ls
+    | .other => l :: ignoredFrom false ls
+
+/-- the lines of a usage text the reader does not use -/
+def ignoredLines (ls : List Str) : List Str := ignoredFrom false ls
+
+/-- a byte text in which every line was ended by `'\n'` (`std::endl`), cut into its lines; `cur` = the line
+    being read (an unterminated rest would be a last line) -/
+def splitNlFrom (cur : Str) : Str → List Str
+  | [] => if cur = [] then [] else [cur]
+  | c :: cs => if c = '\n' then cur :: splitNlFrom [] cs else splitNlFrom (cur ++ [c]) cs
+
+/-- the lines of a byte text: the inverse of `unlines` -/
+def splitNl (s : Str) : List Str := splitNlFrom [] s
+
 /-- the key of `a` can be meant by `k`: same key, or (abbreviations allowed) `k`'s long key is a prefix of `a`'s -/
 def keyMatches (abbr : Bool) (a : Arg) (k : Key) : Bool :=
   keyEq a.key k || (abbr && keyStartsWith a.key k)
+
+/-- What a request for the help of ONE argument may do (the trichotomy of `C18_help_arg`), as a predicate on
+    the result `r` of a request with key `k`, typed as `raw`, put to a handler with the arguments `args`:
+    * some argument is meant by `k` (same key, or - abbreviations allowed - its long key starts with the long
+      key given): `r` is the line `Argument '<k>', usage:` + THAT argument's description as a text block
+      (indent 3, width 80), nothing on the error stream; and if some argument has exactly the key `k`, the
+      argument printed has exactly this key;
+    * no argument is meant: nothing on the output, `*** ERROR: Argument '<raw>' is unknown!` on the error stream;
+    * no argument has exactly this key and the abbreviation is ambiguous among the plain arguments, or - no
+      plain argument being meant - among the sub-group arguments: `std::runtime_error`. -/
+def HelpOutcome (args : List Arg) (noAbbr : Bool) (raw : Str) (k : Key) (r : Res (List Str × List Str)) : Prop :=
+  (∃ a ∈ args, keyMatches (!noAbbr) a k = true
+      ∧ ((∃ b ∈ args, keyEq b.key k = true) → keyEq a.key k = true)
+      ∧ r = .ok (("Argument '".toList ++ keyToString k ++ "', usage:".toList)
+                  :: emit [] (TextBlock.format ⟨3, 80, true⟩ a.desc), []))
+  ∨ ((∀ a ∈ args, keyMatches (!noAbbr) a k = false)
+      ∧ r = .ok ([], ["*** ERROR: Argument '".toList ++ raw ++ "' is unknown!".toList]))
+  ∨ (r = .throw .runtime_error ∧ noAbbr = false
+      ∧ (∀ a ∈ args, keyEq a.key k = false)
+      ∧ ∃ c, (c = plainArgs args
+              ∨ (c = subGroupArgs args ∧ ∀ a ∈ plainArgs args, keyMatches (!noAbbr) a k = false))
+        ∧ ∃ pre a post, c = pre ++ a :: post ∧ keyStartsWith a.key k = true
+            ∧ ∃ p ∈ pre, keyStartsWith p.key k = true)
 
 /-- the value of a call that returned (used by the non-vacuity examples: `Res` has no decidable equality) -/
 def okVal {α : Type} : Res α → Option α
